@@ -104,6 +104,7 @@ func Alphabet() []Event {
 		{Name: "vAdd(V1,A,badsig)", Kind: VAdd, Val: 0, Owner: 0, Ops: c, Sig: SigBad},
 		{Name: "vAdd(V1,A,sigNonce0)", Kind: VAdd, Val: 0, Owner: 0, Ops: c, Sig: SigNonce0},
 		{Name: "vAdd(V1,A,dupOps)", Kind: VAdd, Val: 0, Owner: 0, Ops: []uint64{1, 2, 3, 3}},
+		{Name: "vAdd(V1,A,dupOpsApart)", Kind: VAdd, Val: 0, Owner: 0, Ops: []uint64{1, 2, 1, 3}}, // repeated id at non-adjacent positions
 		{Name: "vAdd(V1,A,unknownOp)", Kind: VAdd, Val: 0, Owner: 0, Ops: []uint64{1, 2, 3, 6}},
 		{Name: "vAdd(V1,A,3ops)", Kind: VAdd, Val: 0, Owner: 0, Ops: []uint64{1, 2, 3}},
 		{Name: "vAdd(V1,A,14ops)", Kind: VAdd, Val: 0, Owner: 0, Ops: ops14},
